@@ -71,6 +71,37 @@ pub fn ark_paths(e: &ark::Element) -> Vec<(&'static str, Vec<u8>)> {
     let mut buf = Vec::new();
     e.vartime_compress().serialize_compressed(&mut buf).expect("serialize");
     v.push(("ark:Encoding::serialize_compressed", buf));
+    // sinks that accept only a few bytes per write call (a pipe, a chunking writer): a legal `Write`
+    struct Chunky {
+        out: Vec<u8>,
+        chunk: usize,
+    }
+    impl ark_serialize::Write for Chunky {
+        fn write(&mut self, buf: &[u8]) -> ark_std::io::Result<usize> {
+            let n = buf.len().min(self.chunk);
+            self.out.extend_from_slice(&buf[..n]);
+            Ok(n)
+        }
+        fn flush(&mut self) -> ark_std::io::Result<()> {
+            Ok(())
+        }
+    }
+    for (name, chunk) in [("ark:Element::serialize_compressed(1-byte sink)", 1usize), ("ark:Element::serialize_compressed(7-byte sink)", 7), ("ark:Element::serialize_compressed(31-byte sink)", 31)] {
+        let mut w = Chunky { out: Vec::new(), chunk };
+        e.serialize_compressed(&mut w).expect("serialize");
+        v.push((name, w.out));
+    }
+    let mut w = Chunky { out: Vec::new(), chunk: 5 };
+    a.serialize_compressed(&mut w).expect("serialize");
+    v.push(("ark:AffinePoint::serialize_compressed(5-byte sink)", w.out));
+    let mut w = Chunky { out: Vec::new(), chunk: 16 };
+    e.vartime_compress().serialize_compressed(&mut w).expect("serialize");
+    v.push(("ark:Encoding::serialize_compressed(16-byte sink)", w.out));
+    // two values into one sink: the second must start right after the first
+    let mut buf = Vec::new();
+    (*e, a).serialize_compressed(&mut buf).expect("serialize");
+    v.push(("ark:(Element, AffinePoint)::serialize_compressed[..32]", buf[..32.min(buf.len())].to_vec()));
+    v.push(("ark:(Element, AffinePoint)::serialize_compressed[32..]", buf[32.min(buf.len())..].to_vec()));
     let unhex = |s: String, prefix: &str| -> Vec<u8> {
         let inner = s.strip_prefix(prefix).and_then(|t| t.strip_suffix(')')).unwrap_or_else(|| panic!("unexpected Debug/Display form {s:?}"));
         hex::decode(inner).unwrap_or_else(|_| panic!("unexpected Debug/Display form {s:?}"))
